@@ -313,7 +313,13 @@ func (e *v2Env) quiesce() bool {
 	reached := make(chan struct{})
 	var once sync.Once
 	m := &peerConn{StubConnection: grpc.NewStubConnection(transport.Peer{ID: "c19-marker", Address: "marker:1"})}
-	m.onPeer = func() { once.Do(func() { close(reached) }) }
+	m.onPeer = func() {
+		// Handle() itself asks for the peer (for its log fields) before it queues the message: only the call made by the in-order handler counts
+		buf := make([]byte, 8192)
+		if strings.Contains(string(buf[:runtime.Stack(buf, false)]), "(*transactionListHandler).start") {
+			once.Do(func() { close(reached) })
+		}
+	}
 	_ = e.proto.Handle(m, &v2.Envelope{Message: &v2.Envelope_TransactionList{TransactionList: &v2.TransactionList{ConversationID: []byte("c19-marker")}}})
 	select {
 	case <-reached:
